@@ -43,6 +43,8 @@ type Syn struct {
 	D
 	ValidModesOnly bool
 	NoAssuming     bool
+	NoPol          bool // no explicit polarity annotations
+	NoCutAnn       bool // no type annotations on cuts
 	depth          int
 }
 
@@ -112,7 +114,7 @@ func (g *Syn) name() ast.Nm {
 	} else {
 		n.S = g.Of(synNames, "name")
 	}
-	if g.Chance(10, "pol") {
+	if !g.NoPol && g.Chance(10, "pol") {
 		n.Pol = 1
 		if g.Bool("neg") {
 			n.Pol = -1
@@ -126,7 +128,7 @@ func (g *Syn) binder() ast.Nm {
 	if g.Chance(4, "bself") {
 		n = ast.SelfNm
 	}
-	if g.Chance(5, "bpol") {
+	if !g.NoPol && g.Chance(5, "bpol") {
 		n.Pol = 1
 	}
 	return n
@@ -155,7 +157,7 @@ func (g *Syn) Term(depth int) *ast.Term {
 		}
 	case ast.TNew:
 		t.X = g.binder()
-		if g.Chance(50, "newann") {
+		if !g.NoCutAnn && g.Chance(50, "newann") {
 			t.X.Pol, t.X.Self = 0, false
 			if t.X.S == "" {
 				t.X.S = "x"
